@@ -25,6 +25,7 @@
 #include <util/time.h>
 
 #include <fcntl.h>
+#include <sys/resource.h>
 #include <sys/wait.h>
 
 using Bytes = std::vector<unsigned char>;
@@ -229,11 +230,12 @@ struct Twin {
         return s + "\t" + S(cf.first) + "\t" + S(cf.second);
     }
 
+    bool reduced = false; // deep exploration: without test-accept and empty-block events
     std::vector<std::string> events()
     {
         std::vector<std::string> e;
-        for (size_t k = 0; k < txs.size(); k++) for (char op : {'V', 'P', 'A', 'B'}) e.push_back(std::string(1, op) + char('0' + k));
-        e.push_back("E_");
+        for (size_t k = 0; k < txs.size(); k++) for (char op : {'V', 'P', 'A', 'B'}) if (!(reduced && op == 'A')) e.push_back(std::string(1, op) + char('0' + k));
+        if (!reduced) e.push_back("E_");
         e.push_back("I_");
         e.push_back("R_");
         return e;
@@ -274,7 +276,7 @@ static void explore(Twin& t, const std::string& hist, int depth, int fd, unsigne
             if (par > 1) t.n.RepointBlocksDir(t.n.BlocksDir() / fs::PathFromString("w" + std::to_string(getpid())));
             const double ta0 = vx::elapsed();
             std::string out = t.apply(ev);
-            if (getenv("VERIF_C13_PROF")) fprintf(stderr, "apply %s %.4f\n", ev.c_str(), vx::elapsed() - ta0);
+            if (getenv("VERIF_C13_PROF")) { struct rusage ru; getrusage(RUSAGE_SELF, &ru); fprintf(stderr, "apply %s %.4f user=%.4f sys=%.4f minflt=%ld\n", ev.c_str(), vx::elapsed() - ta0, ru.ru_utime.tv_sec + ru.ru_utime.tv_usec / 1e6, ru.ru_stime.tv_sec + ru.ru_stime.tv_usec / 1e6, ru.ru_minflt); }
             put(fd, h2 + "\t" + out);
             if (depth > 1) explore(t, h2, depth - 1, fd, 1);
             _exit(0);
@@ -285,7 +287,7 @@ static void explore(Twin& t, const std::string& hist, int depth, int fd, unsigne
     reap(0);
 }
 
-static int run_twin(bool reference, int family, int depth, const std::string& file, unsigned par)
+static int run_twin(bool reference, int family, int depth, bool reduced, const std::string& file, unsigned par)
 {
     int fd = open(file.c_str(), O_WRONLY | O_CREAT | O_TRUNC | O_APPEND, 0644);
     if (fd < 0) return 3;
@@ -295,6 +297,7 @@ static int run_twin(bool reference, int family, int depth, const std::string& fi
     setenv("TMPDIR", mytmp.c_str(), 1);
     try {
         Twin t(reference, family);
+        t.reduced = reduced;
         double t0 = vx::elapsed();
         explore(t, "", depth, fd, par);
         fprintf(stderr, "[C13] twin %s family %d depth %d: %.1fs\n", reference ? "B" : "A", family, depth, vx::elapsed() - t0);
@@ -402,26 +405,31 @@ int main(int argc, char** argv)
         { std::error_code ec; std::filesystem::remove_all(dir, ec); }
         return 0;
     }
-    const int dd = getenv("VERIF_C13_DEPTH") ? atoi(getenv("VERIF_C13_DEPTH")) : (big ? 3 : 2);
-    const int depth[4] = {0, dd, dd, dd};
-    const unsigned par = std::max(1u, std::min(vx::ncpu(), 12u) / 6);
+    // quick: every sequence of the full alphabet to depth 2. thorough: additionally every sequence of the reduced alphabet
+    // (no test-accept, no empty block) to depth 3. VERIF_C13_DEPTH overrides the depth of the full-alphabet run.
+    struct Job { int fam; int depth; bool reduced; pid_t pid[2]; int status[2]; };
+    std::vector<Job> jobs;
+    for (int fam = 1; fam <= 3; fam++) jobs.push_back({fam, getenv("VERIF_C13_DEPTH") ? atoi(getenv("VERIF_C13_DEPTH")) : 2, false, {0, 0}, {0, 0}});
+    if (big) for (int fam = 1; fam <= 3; fam++) jobs.push_back({fam, 3, true, {0, 0}, {0, 0}});
+    const int dd = big ? 3 : jobs[0].depth;
+    const unsigned par = std::max(1u, std::min(vx::ncpu(), 12u) / (unsigned)(2 * jobs.size()));
     uint64_t transitions = 0, diffs = 0, max_script = 0, max_sig = 0, ref_fill = 0;
     std::map<std::string, uint64_t> verdicts;
     vx::Distinct states;
+    std::set<std::string> counted; // a history explored by both runs is counted once
     bool exhaustive = true;
-    // all six twin processes (3 families x {cached, reference}) run concurrently
-    pid_t pids[4][2];
-    for (int fam = 1; fam <= 3; fam++)
+    auto fname = [&](const Job& j, int ref) { return dir + (ref ? "/B" : "/A") + S(j.fam) + (j.reduced ? "r" : "f"); };
+    for (auto& j : jobs)
         for (int ref = 0; ref < 2; ref++) {
             pid_t p = fork();
-            if (p == 0) _exit(run_twin(ref, fam, depth[fam], dir + (ref ? "/B" : "/A") + S(fam), par));
-            pids[fam][ref] = p;
+            if (p == 0) _exit(run_twin(ref, j.fam, j.depth, j.reduced, fname(j, ref), par));
+            j.pid[ref] = p;
         }
-    int status[4][2];
-    for (int fam = 1; fam <= 3; fam++) for (int ref = 0; ref < 2; ref++) { status[fam][ref] = 0; waitpid(pids[fam][ref], &status[fam][ref], 0); }
-    for (int fam = 1; fam <= 3; fam++) {
-        std::string fa = dir + "/A" + S(fam), fb = dir + "/B" + S(fam);
-        const int sa = status[fam][0], sb = status[fam][1];
+    for (auto& j : jobs) for (int ref = 0; ref < 2; ref++) waitpid(j.pid[ref], &j.status[ref], 0);
+    for (auto& j : jobs) {
+        const int fam = j.fam;
+        std::string fa = fname(j, 0), fb = fname(j, 1);
+        const int sa = j.status[0], sb = j.status[1];
         if (!(WIFEXITED(sa) && WEXITSTATUS(sa) == 0) || !(WIFEXITED(sb) && WEXITSTATUS(sb) == 0)) { printf("HARNESS-ERROR twin process failed (family %d, status %d / %d)\n", fam, sa, sb); std::error_code ec; std::filesystem::remove_all(dir, ec); return 2; }
         auto load = [&](const std::string& file) {
             std::map<std::string, std::vector<std::string>> m;
@@ -446,6 +454,7 @@ int main(int argc, char** argv)
         for (auto& [h, a] : A) {
             auto it = B.find(h);
             if (it == B.end()) { printf("HARNESS-ERROR history %s missing in the reference twin\n", h.c_str()); return 2; }
+            if (!counted.insert(S(fam) + h).second) continue;
             transitions++;
             E.evaluations += 1;
             const std::string last = h.substr(h.size() - 2);
@@ -482,7 +491,7 @@ int main(int argc, char** argv)
     E.evaluations += ctrans;
     E.distinct_nontrivial = verdicts.size();
     E.exhaustive = exhaustive;
-    E.set("max_depth", (uint64_t)depth[1]);
+    E.set("max_depth", (uint64_t)dd);
     E.set("twin_histories", transitions);
     E.set("differences", diffs);
     E.set("max_script_cache_entries", max_script);
@@ -491,7 +500,7 @@ int main(int argc, char** argv)
     E.set("cuckoo_evictions", cevict);
     std::string vs;
     for (auto& [k, c] : verdicts) vs += k + "=" + S(c) + " ";
-    E.sample("twin histories (every prefix of every event sequence to depth " + S(depth[1]) + ", 3 families): " + S(transitions) + ", differences " + S(diffs) + "; twin A cache fill up to " + S(max_script) + " script / " + S(max_sig) + " signature entries");
+    E.sample("twin histories (every prefix of every event sequence to depth 2 (full alphabet)" + std::string(big ? " and depth 3 (without test-accept / empty block)" : "") + ", 3 families): " + S(transitions) + ", differences " + S(diffs) + "; twin A cache fill up to " + S(max_script) + " script / " + S(max_sig) + " signature entries");
     E.sample("outcome classes: " + vs);
     E.sample("cuckoocache: " + S(ctrans) + " operations over all sequences of depth " + S(big ? 6 : 5) + " on 6 symbols / 3 candidate slots each; evicting inserts " + S(cevict) + ", erase hits " + S(cerased));
     E.rule = "twin run by fork-per-transition: all event sequences to the depth over {TestBlockValidity(block with T), ProcessTransaction(T), test-accept(T), connect block with T} x T in family, empty block, invalidate tip, reconsider; "
